@@ -4,6 +4,7 @@ import (
 	"fmt"
 	"io"
 	"math"
+	"runtime"
 	"testing"
 	"unsafe"
 
@@ -279,9 +280,11 @@ func (r *run) exec(c call) {
 		d := csproto.NewDecoder(r.viewA)
 		_, _ = d.Seek(int64(old), io.SeekStart)
 		d.SetMode(modeBefore)
-		a0 := heapAllocs()
+		var m0, m1 runtime.MemStats
+		runtime.ReadMemStats(&m0) // exact, stop-the-world counter for the confirmation
 		_ = do(d, c)
-		if a := heapAllocs() - a0; a < alloc {
+		runtime.ReadMemStats(&m1)
+		if a := m1.TotalAlloc - m0.TotalAlloc; a < alloc {
 			alloc = a
 		}
 	}
